@@ -15,6 +15,8 @@ OBLIGATIONS = [
     "Pkgcore.C30.flush_discard_keeps_old",
     "Pkgcore.C30.update_worldset_persists",
     "Pkgcore.C30.update_sequence_exact",
+    "Pkgcore.C30.failed_flush_never_loses_entries",
+    "Pkgcore.C30.failed_flush_keeps_file",
     "Pkgcore.C30.unfixed_modify_counterexample",
 ]
 TRUSTED = [
@@ -182,7 +184,12 @@ def gen_case(rng, valid_chars, bad_first):
             slot = slot or rng.choice([None, "0"])
         else:
             key, slot = gen_key(rng), gen_slot(rng, valid_chars, bad_first)
-        reqs.append({"op": "remove" if remove else "add", "key": key, "slot": slot, "atom": decorate(rng, key, slot)})
+        if reqs and rng.random() < 0.2:      # the very same atom again (add X, remove X, add X on one object)
+            prev = rng.choice(reqs)
+            key, slot = prev["key"], prev["slot"]
+            reqs.append({"op": "remove" if remove else "add", "key": key, "slot": slot, "atom": prev["atom"]})
+        else:
+            reqs.append({"op": "remove" if remove else "add", "key": key, "slot": slot, "atom": decorate(rng, key, slot)})
         e = entry_of(key, slot)
         if remove:
             present = [x for x in present if x != e]
@@ -219,6 +226,9 @@ def corpus():
         C(" a/b \na/b\n#c\n\n=dev-util/bsdiff-0.4\nx/y[foo]\nq/r::gentoo\n", [R("add", "n/m", "1_2"), R("remove", "a/b", None)]),
         C(base, [R("add", "a/b", "3.11")], stale_tmp=True),
         C(base, [R("add", "a/b", "1"), R("add", "a/b", "1"), R("remove", "a/b", "1"), R("remove", "a/b", "1")], fresh_instance=True),
+        # the same request repeated on one object: the outcome of request k must not depend on requests < k beyond the set itself
+        C(base, [R("add", "a/b", "1"), R("remove", "a/b", "1"), R("add", "a/b", "1"), R("remove", "a/b", "1"), R("add", "a/b", "1")]),
+        C("x/y\n", [R("add", "x/y", None), R("remove", "x/y", None), R("add", "x/y", None)]),
     ]
 
 
@@ -495,6 +505,91 @@ def run(ctx):
         shutil.rmtree(d)
 
     pending_discard = []
+    pending_seq = []
+
+    def gen_fault_sequence():
+        """2-6 update_worldset calls on one long-lived WorldFile; 1-2 of them (never the last) meet a transient OSError in their flush;
+        the faulted call is often a re-add of an entry that is already recorded"""
+        case = gen_case(rng, valid_chars, bad_first)
+        while len(case["reqs"]) < 2:
+            case = gen_case(rng, valid_chars, bad_first)
+        case["via"], case["fresh_instance"], case["stale_tmp"] = "pmerge", False, False
+        present = [e for e in entries_of(case["text"]) if e[0] not in "=<>~" and "[" not in e and "::" not in e]
+        n = len(case["reqs"])
+        faulted = set(rng.sample(range(n - 1), min(n - 1, rng.choice([1, 1, 2]))))
+        for i in faulted:
+            if present and rng.random() < 0.6:
+                e = rng.choice(present)
+                key, _, slot = e.partition(":")
+                slot = slot or rng.choice([None, "0"])
+                case["reqs"][i] = {"op": rng.choice(["add", "add", "remove"]), "key": key, "slot": slot, "atom": decorate(rng, key, slot)}
+            case["reqs"][i]["fail_at"] = rng.choice([3, 4, 4, 4])     # the buffered data reaching the file / the final rename
+        return case
+
+    def run_fault_sequence(case, idx):
+        d = os.path.join(root, "q%d" % idx)
+        os.makedirs(d)
+        path = os.path.join(d, "world")
+        with open(path, "w") as f:
+            f.write(case["text"])
+        desc = {"world_text": case["text"], "one_long_lived_WorldFile": True,
+                "requests": [[r["op"], r["atom"]] + (["flush fails transiently at OS call #%d" % r["fail_at"]] if "fail_at" in r else [])
+                             for r in case["reqs"]]}
+        for e in entries_of(case["text"]):
+            if _rejects(atom, e) or str(atom(e)) != e:
+                shutil.rmtree(d)
+                return
+        ws = WorldFile(path, gid=gid)
+        initial = set(entries_of(case["text"]))
+        allowed = {}          # entry -> set of states (True = recorded) the file may show after the next successful flush
+        steps = []
+        ok = True
+        for r in case["reqs"]:
+            a = atom(r["atom"])
+            ent = entry_of(r["key"], r["slot"])
+            before = read_file(path)
+            raised = None
+            with Tracer(d, fail_at=r.get("fail_at")) as tr:
+                try:
+                    update_worldset(ws, a, remove=(r["op"] == "remove"))
+                except OSError as e:
+                    raised = e
+                except Exception as e:
+                    ctx.violation(desc, f"{r['op']} {r['atom']} raised {type(e).__name__}: {e}")
+                    ok = False
+            if not ok:
+                break
+            after = read_file(path)
+            flushed = bool(tr.events) and raised is None
+            fault_hit = "fail_at" in r and r["fail_at"] < len(tr.events)
+            if fault_hit and raised is None:
+                ctx.violation(desc, f"{r['op']} {r['atom']}: the injected OSError inside flush was swallowed")
+            cur = allowed.setdefault(ent, {ent in initial})
+            want_state = r["op"] == "add"
+            allowed[ent] = {want_state} if flushed else cur | {want_state}
+            if not flushed:
+                if after != before:
+                    ctx.violation(desc, f"{r['op']} {r['atom']}: no successful flush, yet the world file changed: {after!r}")
+            else:
+                got = set(entries_of(after.decode()))
+                for e in sorted(initial | set(allowed) | got):
+                    states = allowed.get(e, {e in initial})
+                    if (e in got) not in states:
+                        why = "an entry nobody asked to remove was dropped" if e not in got else "an entry nobody asked to add appeared"
+                        ctx.violation(desc, f"after {r['op']} {r['atom']} the world file {'lacks' if e not in got else 'has'} {e!r}: {why} "
+                                            f"(file: {sorted(got)})")
+                # what was just written is what every entry now *is*
+                for e in set(allowed):
+                    allowed[e] = {e in got} if (e in got) in allowed[e] else allowed[e]
+            steps.append({"keyerror": r["op"] == "remove" and not tr.events, "file": fresh_parse(after), "mem": sorted(str(x) for x in ws),
+                          "failed": fault_hit})
+            ctx.count("seq_step_" + ("faulted" if fault_hit else "flushed" if flushed else "keyerror"))
+        if ok:
+            ctx.case(desc, nontrivial=any(st["failed"] for st in steps),
+                     key=repr((lex(case["text"]), [(r["op"], r["key"], r["slot"], r.get("fail_at")) for r in case["reqs"]])))
+            pending_seq.append((desc, case, steps))
+        shutil.rmtree(d)
+
 
     BODY_FAULTS = [("str", RuntimeError), ("str", KeyboardInterrupt), ("str", MemoryError), ("sorted", KeyboardInterrupt),
                    ("write", OSError), ("write-partial", OSError), ("write", KeyboardInterrupt)]
@@ -627,6 +722,18 @@ def run(ctx):
             for fail_at in range(5):
                 run_fault(c, nf, fail_at)
                 nf += 1
+        seq_corpus = [
+            {"text": "app-misc/foo\ndev-libs/bar:10\n", "via": "pmerge", "fresh_instance": False, "stale_tmp": False, "reqs": [
+                {"op": "add", "key": "app-misc/foo", "slot": None, "atom": "=app-misc/foo-1.0", "fail_at": 4},
+                {"op": "add", "key": "sys-apps/baz", "slot": "1.2", "atom": "sys-apps/baz:1.2"}]},
+            {"text": "app-misc/foo\ndev-libs/bar:10\n", "via": "pmerge", "fresh_instance": False, "stale_tmp": False, "reqs": [
+                {"op": "remove", "key": "dev-libs/bar", "slot": "10", "atom": "dev-libs/bar:10", "fail_at": 4},
+                {"op": "remove", "key": "dev-libs/bar", "slot": "10", "atom": "dev-libs/bar:10"},
+                {"op": "add", "key": "x/y", "slot": None, "atom": "x/y", "fail_at": 3},
+                {"op": "remove", "key": "app-misc/foo", "slot": None, "atom": "app-misc/foo"}]},
+        ]
+        for i, c in enumerate(seq_corpus + [gen_fault_sequence() for _ in range(ctx.n(150, 2500))]):
+            run_fault_sequence(c, i)
         nb = 0
         for i, c in enumerate(cases[: ctx.n(60, 600)]):
             n_after = len(entries_of(c["text"])) + 1
@@ -657,6 +764,20 @@ def run(ctx):
             if got != want:
                 diff = {k: (got[k], want[k]) for k in got if got[k] != want[k]}
                 ctx.mismatch(desc, f"request #{i}: implementation vs Lean model differ in {diff}")
+                break
+    # ---- request sequences with transient flush failures on one WorldFile object (theorem failed_flush_never_loses_entries)
+    sreqs = [{"cmd": "c30.update", "path": "world", "lines": lex(case["text"]), "stale_tmp": False,
+              "reqs": [{"op": r["op"], "key": r["key"], "slot": r["slot"], "fail": st["failed"]} for r, st in zip(case["reqs"], steps)]}
+             for _, case, steps in pending_seq]
+    for (desc, case, steps), rep in zip(pending_seq, ctx.model(sreqs)):
+        if not isinstance(rep, dict):
+            ctx.mismatch(desc, f"driver answered {rep!r}")
+            continue
+        for i, (mine, theirs) in enumerate(zip(steps, rep["steps"])):
+            want = {"keyerror": theirs["keyerror"], "mem": sorted(theirs["mem"]), "file": sorted(theirs["states"][-1][0])}
+            got = {"keyerror": mine["keyerror"], "mem": mine["mem"], "file": mine["file"]}
+            if got != want:
+                ctx.mismatch(desc, f"request #{i}: implementation {got} vs Lean model {want}")
                 break
     # ---- failed flushes (fault in the body): the real call sequence and every crash point against `discardOps` / flush_discard_keeps_old
     dreqs = [{"cmd": "c30.discard", "path": "world", "lines": lex(case["text"]), "stale_tmp": bool(case.get("stale_tmp")),
